@@ -888,7 +888,7 @@ def prop_cases(rng, tier, use_driver=True):
         ht = sg[-1]
         if kind == "p2wpkh":
             k = spec.ask("spec_bip143 d %s %s i%x i%x i%x" % (tx_tokens(t), arg(sc), idx, amount, ht),
-                         (lambda t=t, sc=sc, idx=idx, amount=amount, ht=ht: "(P %s)" % canon(r_bip143(dsha, sc, t, idx, amount, ht))))
+                         (lambda t=t, sc=sc, idx=idx, amount=amount, ht=ht: canon(r_bip143(dsha, sc, t, idx, amount, ht))))
             wrap = True
         else:
             code = r_fad(r_push(sg), sc)
